@@ -12,8 +12,9 @@ For every node ``t`` of 11 seed programs the real ``t.copy()`` is taken and
   symbol object; the written code of both is identical;
 * then every sequence of up to D edits (public API calls on objects inside the
   original subtree or inside the copy) is executed on freshly built objects;
-  after the last edit the FortranWriter (and DebugWriter) text of the side
-  that was NOT edited must be byte-identical to what it was before that edit.
+  after the last edit the FortranWriter text (DebugWriter text for detached
+  copies that cannot be lowered) of the side that was NOT edited must be
+  byte-identical to what it was before that edit.
 """
 import zlib
 
@@ -36,9 +37,13 @@ ASSUMPTIONS = [
     "edits are public-API calls on objects inside the copied subtree or inside "
     "the copy only; symbols declared in enclosing, not copied scopes are "
     "legitimately shared and are never edited",
-    "written code = FortranWriter()(tree) when that works right after copying, "
-    "and DebugWriter()(tree) always; a bare Schedule is written as the "
-    "concatenation of its statements",
+    "written code: at copy time both FortranWriter()(tree) and "
+    "DebugWriter()(tree) of original and copy are compared (statement-level "
+    "subtrees and above); after an edit the unedited side is judged on its "
+    "FortranWriter text when the FortranWriter accepted it right after "
+    "copying, else (detached directive copies) on its DebugWriter text; a bare "
+    "Schedule is written as the concatenation of its statements; a writer "
+    "exception counts as the text 'ERR:<class>'",
     "a text change of the unedited side that is explained only by a change of "
     "a symbol declared outside the copied scopes is not judged",
     "each sequence is replayed from a fresh frontend run on a cached fparser2 "
